@@ -1,13 +1,28 @@
 CFG = {
-    "modules": ["Parsley.Props.C01", "Parsley.Props.C04", "Parsley.Props.C12", "Parsley.Props.C06"],
+    "modules": ["Parsley.Props.C01", "Parsley.Props.C04", "Parsley.Props.C12", "Parsley.Props.C06",
+                "Parsley.Lemmas.PipelineSized", "Parsley.Lemmas.LoaderDefsInv"],
     "shrink": True,
     "repo_bins": ["pdf_printer"],
     "compare_words": 1,   # `completed` | `rejected` | `abnormal`: the end-to-end model (Model/Pipeline.lean) must agree with the real binary's exit status
     "rustgen": True,      # prefixes / mutations of the repository's sample PDFs as explicit `doc` lines (the Lean driver cannot read them)
-    "theorems": ["Parsley.C01.pipeline_never_panics_partial", "Parsley.C01.process_file_never_panics",
-                 "Parsley.C01.extract_never_panics", "Parsley.C01.dump_root_terminates", "Parsley.C01.shipped_check_total",
-                 "Parsley.C01.pipeline_fuel_bound_partial", "Parsley.C01.parseDataE_agrees",
-                 "Parsley.C01.pipeline_stages_never_panic_partial",
+    "theorems": ["Parsley.C01.pipeline_never_panics_sized", "Parsley.C01.pipeline_never_panics_small",
+                 "Parsley.C01.pipeline_never_panics_small_k1", "Parsley.C01.pipeline_never_panics_small_k3",
+                 "Parsley.C01.pipeline_reduces_to_loader", "Parsley.C01.pipeline_never_panics_partial",
+                 "Parsley.C01.process_file_never_panics",
+                 "Parsley.C01.extract_never_panics", "Parsley.C01.dump_root_terminates", "Parsley.C01.dump_root_depth_labels",
+                 "Parsley.C01.depth_overflow_reachable_scaled", "Parsley.C01.shipped_check_total",
+                 "Parsley.C01.pipeline_fuel_bound_partial", "Parsley.C01.pipeline_encrypted_hybrid_rejected",
+                 "Parsley.C01.parseDataE_agrees", "Parsley.C01.pipeline_stages_never_panic_partial",
+                 "Parsley.PipelineSized.parseData_no_panic_small", "Parsley.PipelineSized.objStmPass_ok'",
+                 "Parsley.PipelineSized.objStmParse_np_rel", "Parsley.PipelineSized.decodeLoop_len",
+                 "Parsley.PipelineSized.preserved_chains", "Parsley.PipelineSized.preserved_content",
+                 "Parsley.PipelineSized.getXrefInfo_ok'", "Parsley.PipelineSized.decodeObjStream_len",
+                 "Parsley.PipelineSized.collect_len",
+                 "Parsley.LoaderDefsInv.parseIndirect_defs", "Parsley.LoaderDefsInv.getXrefInfo_inv",
+                 "Parsley.LoaderDefsInv.firstPass_inv", "Parsley.LoaderDefsInv.secondPass_inv",
+                 "Parsley.PipelineLemmas.bfsD_eq_bfs",
+                 "Parsley.LoaderDecoders.applyFilter_no_panic", "Parsley.LoaderDecoders.applyFilter_len",
+                 "Parsley.LoaderDecoders.size_clause_false",
                  "Parsley.C16.parse_never_panics", "Parsley.C16.depth_restored", "Parsley.C05.indirect_never_panics",
                  "Parsley.C13.table_never_panics", "Parsley.C13.dictinfo_never_panics", "Parsley.C13.parseStream_never_panics",
                  "Parsley.C13.rows_terminate", "Parsley.C07.predictor_never_panics", "Parsley.C07.filter_never_panics",
@@ -16,34 +31,56 @@ CFG = {
                  "Parsley.C09.machine_terminates", "Parsley.C03.load_never_panics_partial", "Parsley.C04.prev_cycle_or_oob_rejected",
                  "Parsley.C12.extract_total_on_trees", "Parsley.C06.flate_glue_rejects"],
     "partial": {
-        "Parsley.C01.pipeline_never_panics_partial":
+        "Parsley.C01.pipeline_never_panics_sized":
             "FULL STATEMENT WANTED: for every byte string, Pipeline.run bs (the end-to-end model of pdf_printer: loader, dump_root, type check against "
             "the regenerated shipped catalog specification, page DOM, per-page decoding, text extraction, with the glue of src/bin/pdf_printer.rs) is "
-            "`completed` or `rejected`. PROVED: exactly that for every file below 2^62 bytes under ONE hypothesis inherited from C03's loader theorem "
-            "and not discharged: DecodersTotal (the executable zlib inflate model of C06 never ends in its own fuel outcome, and no decoder returns "
-            "more than 2^63 bytes). Every other panic site and every fuel is proved unreachable for all inputs: the loader (C03, with C16/C05/C13/C14/C07 "
-            "inside), dump_root's breadth-first traversal on arbitrary (cyclic) graphs within |objU|+1 dequeues, the type-check machine on the shipped "
-            "specification (C09 work bound; its two unreachable! sites: no node of the regenerated specification is a disjunction without alternatives), "
-            "to_page_dom (C11), the decode_stream glue, and the text extractor for ALL inputs (extract_never_panics: extractor loop and nested object "
-            "parser fuels suffice, no Rust partial operation fires). NOT covered by any theorem: the machine stack actually consumed, zlib / "
-            "jpeg-decoder / regex internals (DCTDecode is an opaque decoder that never succeeds in the model), allocation failure, wall-clock time, a "
-            "closed stdout. Those are exercised only by running the real binary.",
+            "`completed` or `rejected`. PROVED: exactly that for every file below 2^62 bytes under ONE hypothesis, DecodedSizes: decoding an input of MORE "
+            "than 2^63/2064 bytes (2^61 for ASCII85, 2^64 for ASCIIHex) yields at most 2^63 bytes. The decoders' totality (the inflate model's own fuel, "
+            "ASCII85, ASCIIHex, predictor) is no longer assumed (LoaderDecoders.applyFilter_no_panic), and the hypothesis is used in ONE place of the "
+            "whole pipeline: the object-stream pass of the loader (decoded data becomes a buffer whose set_cursor address arithmetic must not overflow); "
+            "everything after the loader is unconditional (process_file_never_panics). The size clause cannot be dropped for the list model "
+            "(LoaderDecoders.size_clause_false: lists, unlike Rust buffers, can be longer than isize::MAX). NOT covered by any theorem: the machine stack "
+            "actually consumed, zlib / jpeg-decoder / regex internals (DCTDecode is an opaque decoder that never succeeds in the model), allocation failure "
+            "(incl. Vec capacity overflow above isize::MAX), wall-clock time, a closed stdout. Those are exercised only by running the real binary.",
+        "Parsley.C01.pipeline_never_panics_small":
+            "FULL STATEMENT WANTED: as above, for every byte string. PROVED WITHOUT ANY DECODER HYPOTHESIS for every file bs and every k with "
+            "2064^k * |bs| <= 2^63 (k=1: 4.4e15 bytes, k=2: 2.1e12, k=3: 1.04e9, k=4: 5.0e5) in which no dictionary that the object parser can read at any "
+            "offset and nesting depth names more than k filters (FilterArraysLE k; carried through the loader as an invariant of the definitions map, "
+            "Lemmas/LoaderDefsInv.lean + Lemmas/PipelineSized.lean): a chain of n filters multiplies the length by at most 2064^n (applyFilter_len), so "
+            "every decoded object stream is a Rust buffer. MISSING for the full statement: files that name longer chains or exceed the bound - a bound in "
+            "|bs| alone exists only below ~72 bytes (n is limited by the number of 12-byte filter names in a dictionary, and intermediate results of a "
+            "chain are not limited by the file), so the chain length has to appear in the statement. The hypothesis FilterArraysLE is a statement about "
+            "the object grammar on the file (all offsets, all depths); no decidable sufficient condition for it is proved here.",
+        "Parsley.C01.pipeline_never_panics_partial":
+            "(kept) the statement of the first two rounds under C03's DecodersTotal; now a corollary of pipeline_never_panics_sized (only the size clause "
+            "of the hypothesis is used)",
         "Parsley.C01.pipeline_fuel_bound_partial":
-            "FULL STATEMENT WANTED: one closed-form step bound in |bs|. PROVED: explicit budgets per loop, each a function of the LOADED document "
-            "(dump_root: |objU|+1 dequeues; check_type: workBound iterations, any larger fuel gives the same verdict and count; to_page_dom: |defs|+1; "
-            "text extraction: |content|+1 loop iterations and 2|content|+2 for the nested object parser) and the /Prev chain bound of C04 in |bs|. "
-            "Not a function of |bs| alone because an object stream may decode to more bytes than the file has.",
+            "FULL STATEMENT WANTED: one closed-form step bound in |bs|. PROVED, closed forms where they exist: the loader's /Prev loop never exhausts its "
+            "budget |s|+1 (and C04.chain_length_bounded); every stream object the loader's file-level passes define has a raw content of at most |s| bytes, "
+            "one decode_stream yields at most 2064^(number of filters) times its input, and a page with m content streams of at most k filters gets a "
+            "content buffer of at most m*(1+2064^k*|s|) bytes, of which the text extractor's two budgets (|buffer|+1, 2|buffer|+2; never exhausted) are "
+            "linear functions. PROVED as budgets of the LOADED document: dump_root |objU|+1 dequeues; check_type workBound iterations (any larger fuel gives "
+            "the same verdict and count); to_page_dom |defs|+1. EXACT DEPENDENCY of the rest: |defs|, |objU|, workBound and the number m of content streams "
+            "depend on the number and size of the objects defined; |bs| bounds these only for objects parsed from the file itself - members of an object "
+            "stream are parsed from decoded data of up to 2064^k*|bs| bytes, the entries of a cross-reference stream from decoded rows likewise - and no "
+            "lemma 'a parsed object has at most as many nodes as bytes consumed' is proved, so even the file-level part of |objU| is not bounded here.",
+        "Parsley.C01.dump_root_depth_labels":
+            "dump_root AS WRITTEN in /repo before fix C01-01 labels queue entries with `depth: u32`, `depth + 1` being a debug-checked add that the main "
+            "model (bfs) leaves out. PROVED: the labelled loop (bfsD 2^32) equals the modelled one whenever the traversal's universe has at most 2^32 "
+            "distinct objects, because a label is always smaller than the number of processed objects; the site is reachable beyond that "
+            "(depth_overflow_reachable_scaled: limit scaled to 3, chain of four references). So for the UNFIXED code the pipeline theorems additionally need "
+            "|objU| <= 2^32; with pending_fixes/C01-01 (saturating_add) the site does not exist and bfs is the loop as written.",
         "Parsley.C01.pipeline_stages_never_panic_partial":
             "the stage theorems gathered into one obligation (object parser, indirect objects / stream framing, xref table, xref stream dictionary and rows, "
             "predictor reversal, object streams, page DOM, loader, type-check work loop) so that a stage model losing its no-panic theorem breaks C01 as well; "
-            "superseded as the main claim by pipeline_never_panics_partial"},
+            "superseded as the main claim by pipeline_never_panics_sized / _small"},
     "n": {"quick": 1200, "thorough": 20000},
     "exhaustive": {"quick": False, "thorough": False},
     "rule": "every case is a complete file (`doc <hex>`) run through (a) the REAL pdf_printer binary, built from /repo's working tree, in a subprocess "
             "(10 s limit, 4 GiB address space; outcome = exit status 0 completed / 1 rejected / anything else abnormal) and (b) the end-to-end Lean model "
             "Pipeline.run; the outcome words must agree, and the oracle accepts only completed/rejected. Generators: hand-built adversarial documents "
             "(self-referential objects used as /Kids, /Contents, /Resources, /Pages, /Length, /Root, /Font, /Filter; /Kids, /Contents and reference-chain "
-            "loops: self, cycle, lasso, long, dangling, cyclic containers at 18 reference positions; 15 /DecodeParms shapes with extreme /Predictor /Columns "
+            "loops: self, cycle, lasso, long, dangling, cyclic containers at 18 reference positions; corpus/C01/long_reference_chain.case: an acyclic chain of 300 references below the catalog (dump_root depth label 302); 15 /DecodeParms shapes with extreme /Predictor /Columns "
             "/Colors /BitsPerComponent singly and as parallel arrays; Flate, ASCIIHex, ASCII85 and chained filters; 15 extreme numbers substituted into "
             "/Length, /N, /First, /W, /Index, /Prev, startxref; classic-table, xref-stream (+Flate), object-stream, incrementally-updated and encrypted "
             "layouts (corpus/C01/encrypted_hybrid.case: the complete one-page document as a hybrid file whose trailer declares /Encrypt - the code refuses the /XRefStm stream and exits (the oracle accepts completed or rejected; the model correspondence pins which), "
@@ -66,19 +103,26 @@ CFG = {
         "the subprocess runner (ulimit -v, 10 s timeout, exit-status classification) in harness/src/bin/c01.rs",
         "labelled closed form for files above 1.5 MB that contain more than 50 consecutive nesting openers (Driver/C01.lean sizeCap): the model is not run on them"],
     "assumptions": ["exit status 0 = completed, 1 = located diagnostic (exit_log!); 101 = Rust panic (log_panics), signals = abort/stack overflow",
-                    "DecodersTotal (hypothesis of pipeline_never_panics_partial, inherited from C03): zlib inflate model never out of its own fuel, decoder outputs <= 2^63 bytes"],
+                    "DecodedSizes (the one hypothesis of pipeline_never_panics_sized): decoding an input of more than 2^63/2064 bytes yields at most 2^63 bytes; "
+                    "pipeline_never_panics_small replaces it by a bound on the file size and on the number of filters a dictionary names",
+                    "for /repo WITHOUT pending_fixes/C01-01: fewer than 2^32 distinct objects reachable from the root (dump_root's u32 depth label)"],
 }
 LEVEL = {
     "design_ref": "DESIGN.md 3.C01 and 8",
     "technique": "Lean 4 end-to-end model of pdf_printer (Pipeline.run) with a no-panic/termination theorem assembled from the stage theorems + "
                  "correspondence of the model's outcome with the real binary's exit status on adversarial documents",
-    "text": "PARTIAL. Proved (machine-checked): for every file below 2^62 bytes the end-to-end model Pipeline.run - loader, dump_root traversal with "
-            "decode_stream on every reachable stream, type check against the regenerated shipped catalog specification, page DOM, per-page decoding and "
-            "text extraction, with the glue of src/bin/pdf_printer.rs - ends in `completed` or `rejected`: no modelled Rust partial operation (unwrap, "
-            "assert!, index, overflow, unreachable!) and no loop fuel is reachable, with explicit budgets per loop; one hypothesis (DecodersTotal: the "
-            "zlib inflate model's own fuel, decoder output sizes) is inherited from the loader theorem and not discharged. The text extractor's totality, "
-            "dump_root's termination on cyclic graphs and the absence of the type checker's unreachable! sites on the shipped specification are proved at "
-            "full strength for all inputs. Not proved: stack depth, external libraries, allocator, time; for these, and to tie the model to the code, the "
-            "check runs the real pdf_printer binary on generated adversarial documents and on prefixes/mutations of the sample files, requires exit "
-            "status 0 or 1, and requires the model to predict which of the two.",
+    "text": "PARTIAL. Proved (machine-checked): the end-to-end model Pipeline.run - loader, dump_root traversal with decode_stream on every reachable "
+            "stream, type check against the regenerated shipped catalog specification, page DOM, per-page decoding and text extraction, with the glue of "
+            "src/bin/pdf_printer.rs - ends in `completed` or `rejected`, no modelled Rust partial operation (unwrap, assert!, index, overflow, "
+            "unreachable!) and no loop fuel being reachable, (a) for every file below 2^62 bytes under ONE size hypothesis about decoder inputs of more "
+            "than 2^63/2064 bytes (DecodedSizes; the decoders' totality is a theorem now), and (b) with NO decoder hypothesis for every file with "
+            "2064^k*|file| <= 2^63 (k=1: 4.4e15 bytes, k=3: 1 GB) in which no dictionary the object parser can read names more than k filters. Everything "
+            "after the loader (process_file) is unconditional for every loaded context; the text extractor's totality, dump_root's termination on cyclic "
+            "graphs and the absence of the type checker's unreachable! sites on the shipped specification are proved at full strength. Budgets: explicit per "
+            "loop, closed forms in |file| for the /Prev loop, stream contents, one decode_stream and one page's content buffer; the rest as functions of the "
+            "loaded document with the exact dependency stated. The binary's glue was re-read line by line: the only unmodelled statement that can panic is "
+            "dump_root's u32 `depth + 1` (needs 2^32 distinct objects; proved safe below that, fix C01-01 removes it); println! on a closed stdout and "
+            "allocation limits are outside the model. Not proved: stack depth, external libraries, allocator, time; for these, and to tie the model to the "
+            "code, the check runs the real pdf_printer binary on generated adversarial documents and on prefixes/mutations of the sample files, requires "
+            "exit status 0 or 1, and requires the model to predict which of the two.",
 }
